@@ -2,6 +2,7 @@ import Driver.Cpu
 import Driver.Mem
 import Driver.Text
 import Driver.Load
+import Driver.Report
 /-
   Driver: one request per line on stdin, one answer per line on stdout.
   Unknown or malformed lines answer `bad` (never a default).
@@ -15,6 +16,9 @@ def handle (line : String) : String :=
   else if l.startsWith "mem " then handleMem l
   else if l.startsWith "dump " then handleDump l
   else if l.startsWith "load " then handleLoad l
+  else if l.startsWith "report " then handleReport l
+  else if l.startsWith "idx " then handleIdx l
+  else if l.startsWith "idxenvelope " then handleIdxEnvelope l
   else if l.startsWith "preload " then handlePreload l
   else if l.startsWith "dumpspec " then handleDumpSpec l
   else "bad"
